@@ -783,20 +783,21 @@ Definition set_after_change (k : change_kind) (c : change_res) : lres nat + stat
    [dump_err] = how ruamel's dump of the document ends (None = it produces the text, Some cls = it
    raises cls, e.g. TypeError for a tagged non-string scalar).  Only the YAML dumper is given a way
    to fail: json.dump(jsonify_yaml_data(..)) has no known failing input and stays a total oracle;
-   [jd] = the document that JSON text reloads to (jsonify drops tags, turns dates into text). *)
+   [jd] = the document that JSON text reloads to (jsonify drops tags, turns dates into text);
+   [yd] = the document the YAML text reloads to (d itself whenever ruamel's emitter is faithful). *)
 Definition set_write (a : set_args) (n : noise) (file : string) (flow_root : bool) (dump_err : option string)
-           (jd : nat) (d : nat) : crun :=
+           (yd jd : nat) (d : nat) : crun :=
   let as_yaml := negb flow_root && negb (sa_is_json_ext a) in
   let vb := if sa_backup a then log_verbose n [OVerb] else [] in       (* "Saving a backup of ..." *)
   let fx := if sa_backup a then [EBackup] else [] in
   let err := if as_yaml then dump_err else None in
   if is_dash file
   then match err with
-       | None => mkrun (Exit 0) (vb ++ [ODump (negb as_yaml) [if as_yaml then d else jd]]) fx
+       | None => mkrun (Exit 0) (vb ++ [ODump (negb as_yaml) [if as_yaml then yd else jd]]) fx
        | Some c => mkrun (Uncaught (UCrash c)) (vb ++ [ODumpPartial]) fx   (* yaml.dump(yaml_data, sys.stdout) raises half way *)
        end
   else match err with
-       | None => mkrun (Exit 0) (vb ++ log_verbose n [OVerb]) (fx ++ [EWrite (negb as_yaml) [if as_yaml then d else jd]])
+       | None => mkrun (Exit 0) (vb ++ log_verbose n [OVerb]) (fx ++ [EWrite (negb as_yaml) [if as_yaml then yd else jd]])
                                                                        (* "Writing changed data as ..." *)
        | Some c =>
            (* fix: save_to_yaml_file's `except Exception`: the original bytes are copied back, the
@@ -808,7 +809,8 @@ Definition set_write (a : set_args) (n : noise) (file : string) (flow_root : boo
    empty document; [gather] = processor.get_nodes(change_path, mustexist=True);
    [saveto d] and [change d] = the library steps applied to state d;
    [flow d] = docroot_is_flow of the state; [dump_fail d] = how the YAML dump of the state ends;
-   [jsonview d] = the state after jsonify_yaml_data and the JSON round trip *)
+   [jsonview d] = the state after jsonify_yaml_data and the JSON round trip;
+   [yamlview d] = what the YAML text of the state loads back to *)
 Section SetTool.
   Variable built : lres nat.
   Variable saveto : nat -> lres nat.
@@ -816,13 +818,14 @@ Section SetTool.
   Variable flow : nat -> bool.
   Variable dump_fail : nat -> option string.
   Variable jsonview : nat -> nat.
+  Variable yamlview : nat -> nat.
   Variable change_verb : nat -> nat.      (* logger.verbose messages the change call emits on state d *)
 
   Definition set_must_exist (a : set_args) : bool := sa_mustexist a || sa_delete a || sa_saveto a.
 
   (* "Applying changes": the if/elif chain, then write_output_document; [out] = the lines so far *)
   Definition set_finish (a : set_args) (n : noise) (file : string) (out : list oline) (d : nat) : crun :=
-    let w := set_write a n file (flow d) (dump_fail d) (jsonview d) d in
+    let w := set_write a n file (flow d) (dump_fail d) (yamlview d) (jsonview d) d in
     mkrun (r_status w) (out ++ r_out w) (r_fx w).
   Definition set_change_tail (a : set_args) (n : noise) (file : string) (out2 : list oline) (d1 : nat) : crun :=
     let k := set_change_kind a in
